@@ -12,7 +12,7 @@ const F = { TEXT: 1, CLASS: 2, STYLE: 4, PROPS: 8, FULL_PROPS: 16, HYDRATE_EVENT
 
 const ALPHABET = ['strPlain', 'valueless', 'num', 'objConst', 'identUnbound', 'call', 'member', 'classStr', 'classExpr', 'styleObj', 'styleExpr',
   'key', 'ref', 'onClick', 'onOther', 'onUpdate', 'onUpdateModel', 'namespaced', 'spreadIdent', 'spreadObjLit', 'onObj', 'nativeOnObj',
-  'dirCustom', 'dirShow', 'html', 'textc', 'model', 'modelComputed', 'undef', 'arrow', 'template'];
+  'dirCustom', 'dirShow', 'html', 'textc', 'model', 'modelComputed', 'undef', 'arrow', 'template', 'onClickConst', 'onOtherConst'];
 
 function makeItem(b, rng, kind, st, hostInfo) {
   switch (kind) {
@@ -21,6 +21,9 @@ function makeItem(b, rng, kind, st, hostInfo) {
       const g = b.global({ k: 'fn', id: 'oum' });
       return { ...A.attr('onUpdate:modelValue', { k: 'leaf', i: b.leaf(g), src: g }), kind, dynamic: true };
     }
+    // listeners with a constant value (nothing to update), possibly repeated by a dynamic one of the same name
+    case 'onClickConst': return { ...A.attr('onClick', { k: 'leaf', i: b.leaf('null'), src: 'null' }), kind, dynamic: false };
+    case 'onOtherConst': { const v = rng.pick(['undefined', 'null', '[]']); return { ...A.attr(rng.pick(['onMouseenter', 'onScroll', 'onTouchstart']), { k: 'leaf', i: b.leaf(v), src: v }), kind, dynamic: false }; }
     case 'dirCustom': return { ...makeDirective(b, ['v-cust', 'cust'], [], null, 'expr', st.nameCounter++), kind };
     case 'dirShow': return { ...makeDirective(b, ['v-show', 'show'], [], null, 'expr', st.nameCounter++), kind };
     case 'html': case 'textc': {
